@@ -173,3 +173,40 @@ Proof.
     apply (t_trans _ _ 2 3 1); apply t_step; unfold estep; cbn; tauto.
   - exists 1. apply (t_trans _ _ 1 2 1); apply t_step; unfold estep; cbn; tauto.
 Qed.
+
+(* ---------------------------------------------------------------------------------------------------
+   "maximal unbranched path", literally (TracksPathLemmas.v): is_path E T -- the nodes of T can be listed
+   x1..xk without repetition so that the edges of the graph among them are exactly x1->x2, .., x(k-1)->xk.
+   --------------------------------------------------------------------------------------------------- *)
+From Geff Require Import TracksPathLemmas.
+
+(* a class passes (is not named) iff it is a simple directed path whose edges are all "the only edge leaving its
+   source and entering its target" and which no such edge of the graph enters or leaves *)
+Theorem C13_class_path_iff : forall E r T', NoDup (r :: T') ->
+  (class_ok_all E (r :: T') <-> max_unbranched_path E (r :: T')).
+Proof. exact path_class_iff. Qed.
+Print Assumptions C13_class_path_iff.
+
+(* (L)/\(C)/\(P) is: every tracklet is a maximal unbranched path *)
+Theorem C13_spec_all_paths : forall E NL, wf_labelled E NL -> (spec_all E NL <-> spec_paths E NL).
+Proof. exact spec_all_paths. Qed.
+Print Assumptions C13_spec_all_paths.
+
+(* the validator returns (True, []) iff every tracklet is a maximal unbranched path of the graph (any digraph) *)
+Theorem C13_iff_paths : forall E NL, wf_labelled E NL ->
+  (validate_tracklets E NL = Ok (true, []) <-> spec_paths E NL).
+Proof. exact tracklets_iff_paths. Qed.
+Print Assumptions C13_iff_paths.
+
+(* non-vacuity: in 1->2->3 with a division at 3 (3->4, 3->5) the class {1,2,3} is a maximal unbranched path
+   (listing 1,2,3); the ring 1->2->3->1 is not a path *)
+Example C13_paths_nonvacuous :
+  max_unbranched_path [(1, 2); (2, 3); (3, 4); (3, 5)] [2; 3; 1] /\
+  ~ max_unbranched_path [(1, 2); (2, 3); (3, 1)] [1; 2; 3].
+Proof.
+  split.
+  - apply path_class_iff; [repeat constructor; cbn; intuition discriminate|].
+    apply check_class_all_spec; [repeat constructor; cbn; intuition discriminate | vm_compute; reflexivity].
+  - intros H. apply path_class_iff in H; [|repeat constructor; cbn; intuition discriminate].
+    apply check_class_all_spec in H; [|repeat constructor; cbn; intuition discriminate]. vm_compute in H. discriminate.
+Qed.
